@@ -53,6 +53,7 @@ type FuncContract struct {
 	File     string
 	Line     int
 	Used     bool
+	SortedBy  map[string]Expr      // host contract: callback-sorted <param> <n>
 	Callbacks map[string][]*Clause // host contract: what it guarantees whenever it calls its function-typed parameter
 	PanicOK  []string // obligation-name globs for explicit panics that are accepted as intended behaviour (never for remote-input code)
 	Fresh    bool     // results are freshly allocated objects
@@ -124,7 +125,7 @@ func newContracts() *Contracts {
 	return &Contracts{Funcs: map[string]*FuncContract{}, Specs: map[string]*SpecFunc{}, Ifaces: map[string]*FuncContract{}}
 }
 
-var keywordRe = regexp.MustCompile(`^(func|iface|spec|ufunc|axiom|lemma|requires|ensures|ghost-ensures|at-return|after-call|modifies|loop|inline|extern|pure|global|fresh|panicok|callback|typeinv|immutable)\b`)
+var keywordRe = regexp.MustCompile(`^(func|iface|spec|ufunc|axiom|lemma|requires|ensures|ghost-ensures|at-return|after-call|modifies|loop|inline|extern|pure|global|fresh|panicok|callback-sorted|callback|typeinv|immutable)\b`)
 
 // loadContractFile parses one file; pkgPath is "" for /verif/specs files (full keys).
 func (C *Contracts) loadContractFile(path, pkgPath string) error {
@@ -334,6 +335,23 @@ func (C *Contracts) loadContractFile(path, pkgPath string) error {
 				default:
 					return fail(fmt.Errorf("unknown loop clause %q", f[1]))
 				}
+			case "callback-sorted":
+				// callback-sorted <param> <n-expr>: after the call, positions 0..n-1 are in an order
+				// in which the comparison literal passed for <param> never says "later before
+				// earlier": forall a < b < n: !less(b, a), with less(i, j) taken from the
+				// literal's own postcondition `result <==> E(i, j)` (sort.Slice's documented effect)
+				f := strings.Fields(rest)
+				if len(f) < 2 {
+					return fail(fmt.Errorf("callback-sorted <param> <n-expr>"))
+				}
+				e, err := parseExpr(strings.TrimSpace(strings.TrimPrefix(rest, f[0])))
+				if err != nil {
+					return fail(err)
+				}
+				if cur.SortedBy == nil {
+					cur.SortedBy = map[string]Expr{}
+				}
+				cur.SortedBy[f[0]] = e
 			case "callback":
 				f := strings.Fields(rest)
 				if len(f) < 2 {
